@@ -19,7 +19,7 @@
 (* ChangeInput (environment changes ONE input and holds it; enabled only   *)
 (* when settled; only for records with mode = "hist").                     *)
 (***************************************************************************)
-EXTENDS Circuit, Facto, KnownFindings, Proto, TLCExt, SequencesExt
+EXTENDS Paste, Facto, KnownFindings, TLCExt, SequencesExt
 
 VARIABLES v_pid, v_val, v_out, v_tick, v_settled, v_mem, v_lost
 vars == <<v_pid, v_val, v_out, v_tick, v_settled, v_mem, v_lost>>
@@ -283,6 +283,27 @@ CheckFresh(p, k) ==
         (InSig(u, e) \notin ex \cup Reserved) \/ Fail(p, "C13_fresh", [unit |-> k, name |-> ss[i].n, chosen |-> InSig(u, e), explicit |-> ex])
 ASSUME \A p \in PIDs : \A k \in DOMAIN UnitsOf(p) : ~Active("C13_fresh") \/ ~WiresOK(UnitsOf(p)[k]) \/ CheckFresh(p, k)
 
+(* C08 / C18, static part: the blueprint can be pasted and is powered (Paste.tla).  A record names the requested pole type  *)
+(* in `poles` ("" = no power-pole option).                                                                                 *)
+PoleOpt(p, k) == IF "poles" \in DOMAIN Recs[p] THEN (IF k = 1 THEN Recs[p].poles ELSE (IF "poles2" \in DOMAIN Recs[p] THEN Recs[p].poles2 ELSE "")) ELSE ""
+PoleProto(t) == CASE t = "small" -> "small-electric-pole" [] t = "medium" -> "medium-electric-pole" [] t = "big" -> "big-electric-pole"
+                  [] t = "substation" -> "substation" [] OTHER -> ""
+CheckPaste(p, k) ==
+  LET u == UnitsOf(p)[k] IN
+  /\ (UnknownProtos(u) = {} \/ Fail(p, "C08_proto", [unit |-> k, unknown |-> UnknownProtos(u)]))
+  /\ (Overlaps(u) = {} \/ Fail(p, "C08_overlap", [unit |-> k, pairs |-> {<<Name(u, q[1]), Ents(u)[q[1]].position, Name(u, q[2]), Ents(u)[q[2]].position>> : q \in Overlaps(u)}]))
+  /\ (BadEnds(u) = {} \/ Fail(p, "C08_wire_ends", [unit |-> k, wires |-> {WireList(u)[i] : i \in BadEnds(u)}]))
+  /\ (BadColour(u) = {} \/ Fail(p, "C08_wire_colour", [unit |-> k, wires |-> {WireList(u)[i] : i \in BadColour(u)}]))
+  /\ (TooLong(u) = {} \/ Fail(p, "C08_wire_reach", [unit |-> k, wires |-> {<<WireList(u)[i], Name(u, WireList(u)[i][1]), Name(u, WireList(u)[i][3]), Dist2(u, WireList(u)[i][1], WireList(u)[i][3])>> : i \in TooLong(u)}]))
+CheckPower(p, k) ==
+  LET u == UnitsOf(p)[k]  t == PoleProto(PoleOpt(p, k)) IN
+  IF t = "" THEN (\A q \in Poles(u) : IsRelay(u, q)) \/ Fail(p, "C18_no_option", [unit |-> k, poles |-> {<<Name(u, q), Ents(u)[q].position>> : q \in {q \in Poles(u) : ~IsRelay(u, q)}}])
+  ELSE /\ (Unpowered(u, t) = {} \/ Fail(p, "C18_powered", [unit |-> k, type |-> t, unpowered |-> {<<Name(u, e), Ents(u)[e].position>> : e \in Unpowered(u, t)}]))
+       /\ (OneGrid(u) \/ Fail(p, "C18_one_grid", [unit |-> k, type |-> t, poles |-> Cardinality(Poles(u))]))
+       /\ ((\A q \in Poles(u) : Name(u, q) = t) \/ Fail(p, "C18_type", [unit |-> k, type |-> t, found |-> {Name(u, q) : q \in Poles(u)}]))
+ASSUME \A p \in PIDs : \A k \in DOMAIN UnitsOf(p) : ~Active("C08_overlap") \/ CheckPaste(p, k)
+ASSUME \A p \in PIDs : \A k \in DOMAIN UnitsOf(p) : ~Active("C18_powered") \/ ~WiresOK(UnitsOf(p)[k]) \/ CheckPower(p, k)
+
 (* C11_range: every constant placed in an accepted blueprint is a signed 32-bit value (the encoder reports the others) *)
 ASSUME \A p \in PIDs : \A k \in DOMAIN UnitsOf(p) :
          LET o == Get(BPs[UnitsOf(p)[k]], "oor", <<>>) IN Len(o) = 0 \/ Fail(p, "C11_range", [unit |-> k, constants |-> o])
@@ -350,7 +371,9 @@ CanResync(p, am) ==
 RECURSIVE Prod(_, _)
 Prod(p, i) == IF i > NIn(p) THEN {<<>>} ELSE {<<x>> \o r : x \in DomT[p][i], r \in Prod(p, i + 1)}
 InitOuts(p) == [k \in DOMAIN UnitsOf(p) |-> InitOut(UnitsOf(p)[k])]
-Init == /\ v_pid \in PIDs
+\* a blueprint with a wire to a missing entity / connector cannot be executed (C08_wire_ends reports it)
+RunnableT == {p \in PIDs : \A k \in DOMAIN UnitsOf(p) : WiresOK(UnitsOf(p)[k])}
+Init == /\ v_pid \in RunnableT
         /\ v_val \in Prod(v_pid, 1)
         /\ v_out = InitOuts(v_pid)
         /\ v_tick = 0 /\ v_settled = FALSE
